@@ -36,7 +36,7 @@ pub fn plan(id: &str) -> Option<Plan> {
         "the simulator's driver disciplines reproduce the call orders of the tokio and threaded driver loops",
     ];
     let p = match id {
-        "C01" => Plan { id: "C01", level: "exploration", cases_quick: 40_000, cases_thorough: 1_500_000, enumerate: None, extra_families: vec![("C11", 15), ("C18", 10)], nontrivial: vec!["c01.completed_ok", "c01.completed_err"], gates: vec![("c01.completed_ok", 1000), ("c01.completed_err", 1000), ("c01.resets_checked", 1000), ("c01.final_acks_delivered", 5000), ("c01.failing_pubrecs_delivered", 20)], wrap_runs: (0, 0),
+        "C01" => Plan { id: "C01", level: "exploration", cases_quick: 40_000, cases_thorough: 1_500_000, enumerate: None, extra_families: vec![("C11", 15), ("C18", 10)], nontrivial: vec!["c01.completed_ok", "c01.completed_err"], gates: vec![("c01.completed_ok", 1000), ("c01.completed_err", 1000), ("c01.resets_checked", 1000), ("c01.final_acks_delivered", 5000), ("c01.failing_pubrecs_delivered", 20), ("c01.successes_after_final_ack", 5000)], wrap_runs: (0, 0),
             rule: "seeded engine simulations (random operations, broker policies incl. late/duplicated/wrong-type/unknown-id acks, closes at random steps, buffer sizes 4..8192, mid-run and final reset); non-trivial = at least one completion observed; distinct = distinct event-kind sequences", assumptions: common_assume },
         "C02" => Plan { id: "C02", level: "exploration", cases_quick: 20_000, cases_thorough: 600_000, enumerate: None, extra_families: vec![("C16", 30), ("C17", 20), ("C07", 20)], nontrivial: vec!["c02.wire_packets"], gates: vec![("c02.wire_packets", 100_000)], wrap_runs: (0, 0),
             rule: "engine simulations: every packet the engine emits in any history is decoded by the strict reference decoder and, for user operations, compared with what was submitted", assumptions: common_assume },
